@@ -122,12 +122,19 @@ def extract(repo=REPO, use_cache=True, log=None):
                 diags.append({'tu': tu, **dg})
         info = {'tus': tus, 'fixits': fixits, 'diagnostics': diags, 'key': key, 'cache_hit': False}
         os.makedirs(CACHE, exist_ok=True)
-        if os.path.exists(dest): shutil.rmtree(dest)
-        shutil.move(out, dest)
-        json.dump(info, open(marker, 'w'))
+        json.dump(info, open(os.path.join(out, 'DONE.json'), 'w'))
+        if os.path.exists(marker):
+            pass                               # another process finished the same tree first
+        else:
+            tmpdest = dest + f'.{os.getpid()}.tmp'
+            shutil.move(out, tmpdest)
+            try:
+                os.rename(tmpdest, dest)
+            except OSError:
+                shutil.rmtree(tmpdest, ignore_errors=True)
         # keep the cache small: retain the 12 most recent trees
         ents = sorted((os.path.getmtime(os.path.join(CACHE, e)), e) for e in os.listdir(CACHE))
-        for _, e in ents[:-12]:
+        for _, e in ents[:-int(os.environ.get('VERIF_CACHE_KEEP', '12'))]:
             shutil.rmtree(os.path.join(CACHE, e), ignore_errors=True)
         info['wall_s'] = round(time.time() - t0, 2)
         return dest, info
